@@ -235,3 +235,55 @@ var EnumOwner = &core.Rule{Name: "R-ENUMOWNER", Run: func(p *core.Prog) *core.Re
 	}
 	return res
 }, Doc: "the prototype-chain walk of for-in resolves keys of unknown enumerability on the object they belong to"}
+
+// R-AWAITRESOLVE (C10, C09): Await(v) begins with `? PromiseResolve(%Promise%, v)`, which reads
+// v.constructor - user code that can throw. The abrupt completion belongs to the await expression:
+// it is thrown inside the async function, where its try/catch sees it. asyncRunner.step performs the
+// PromiseResolve from *outside* the body (it is called by whoever drives the function: the initial
+// call, or a promise reaction job); unshielded, the exception goes to that driver instead - the
+// first await throws synchronously out of the async call, a later one is swallowed by the reaction
+// job and the function never resumes: its promise never settles.
+// Rule: the promiseResolve call of asyncRunner.step lies in a closure handed to vm.try.
+var AwaitResolve = &core.Rule{Name: "R-AWAITRESOLVE", Run: func(p *core.Prog) *core.Result {
+	res := core.NewResult("R-AWAITRESOLVE", 1)
+	step, err := p.GojaMethod("asyncRunner", "step")
+	if err != nil {
+		return res.Fail(err)
+	}
+	pr, err := p.GojaMethod("Runtime", "promiseResolve")
+	if err != nil {
+		return res.Fail(err)
+	}
+	try, err := p.GojaMethod("vm", "try")
+	if err != nil {
+		return res.Fail(err)
+	}
+	key := "(*asyncRunner).step:PromiseResolve of the awaited value is shielded"
+	n := 0
+	core.WithAnon(step, func(g *ssa.Function) {
+		for _, c := range core.CallsIn(g, pr) {
+			n++
+			shielded := false
+			if g.Parent() != nil {
+				core.AllInstrs(g.Parent(), func(in ssa.Instruction) {
+					if tc, ok := core.CallTo(in, try); ok {
+						for _, a := range tc.Common().Args {
+							if mc, ok := a.(*ssa.MakeClosure); ok && mc.Fn == g {
+								shielded = true
+							}
+						}
+					}
+				})
+			}
+			if shielded {
+				res.OK(key, p.Pos(c.Pos()), "inside a closure handed to vm.try")
+			} else {
+				res.Bad(key, p.Pos(c.Pos()), "PromiseResolve(%Promise%, value) reads value.constructor, which can throw; called unshielded from the code that drives the async function, the exception reaches that driver: the first await throws synchronously out of the async call, a later one is swallowed by the reaction job and the function's promise never settles")
+			}
+		}
+	})
+	if n == 0 {
+		res.Unknown(key, p.Pos(step.Pos()), "no promiseResolve call found in asyncRunner.step")
+	}
+	return res
+}, Doc: "asyncRunner.step calls PromiseResolve for the awaited value under vm.try and throws a failure into the function body"}
